@@ -96,7 +96,7 @@ func vfAtLoadRun(r *vfev.Report, nbp *int, shard, shards int, target string, nop
 			var subCode, opCode int
 			var diffs []string
 			var loaded, alive bool
-			stuck := ""
+			stuck, slot := "", ""
 			where := "after the load"
 			res := vsched.Run(vsched.Config{MaxSteps: 4000000}, func() {
 				t, loader := build()
@@ -188,6 +188,16 @@ func vfAtLoadRun(r *vfev.Report, nbp *int, shard, shards int, target string, nop
 				s := t.snap()
 				loaded, alive = s.Loaded, s.alive()
 				diffs = s.cacheVsStore()
+				// request bookkeeping never blocks a session: the connection which asked for the load gets
+				// an answer to its next {sub} as well
+				if lc := t.cl[loader]; !lc.ended && !lc.closed {
+					if lc.sess != nil && lc.sess.inflightReqs != nil && len(lc.sess.inflightReqs.sem) != 0 {
+						slot = "its request slot is still taken at quiescence"
+					}
+					if fc, _ := lc.Req(`{"sub":{"id":"$ID","topic":"%s"}}`, addr); fc == 0 && !lc.ended {
+						slot = "its next {sub} is never answered"
+					}
+				}
 			})
 			name := fmt.Sprintf("%s %s", opName(oi), where)
 			r.Eval(1)
@@ -202,6 +212,10 @@ func vfAtLoadRun(r *vfev.Report, nbp *int, shard, shards int, target string, nop
 			r.Outcome(fmt.Sprintf("%s sub=%d req=%d loaded=%v diffs=%d", opKind(oi), subCode/100, opCode/100, loaded, len(diffs)))
 			if subCode == 0 {
 				r.Violation("C13:unanswered:at-load:sub", name+": the {sub} which loads the topic was never answered", det)
+			}
+			if slot != "" {
+				r.Violation("C13:session-stuck-after:at-load:"+opKind(oi), name+": the session which asked for the load is stuck: "+slot, det)
+				r.Violation("C14:inflight-request-not-released:at-load:"+opKind(oi), name+": the session which asked for the load is stuck: "+slot, det)
 			}
 			if stuck != "" {
 				r.Violation("C14:terminated-session-still-attached:during-load", name+": the connection was closed; afterwards "+stuck, det)
